@@ -24,5 +24,29 @@ table = "\n".join(["| seed | change (suite still 229/229; own demonstration fail
 p = "/verif/DESIGN.md"
 s = open(p).read()
 s2 = re.sub(r"(<!-- SEED-TABLE-BEGIN -->\n).*?(<!-- SEED-TABLE-END -->)", lambda m: m.group(1) + table + "\n" + m.group(2), s, flags=re.S)
-open(p, "w").write(s2)
-print(len(rows), "rows", "updated" if s2 != s else "unchanged")
+# benign table
+brow = []
+mx = {}
+try:
+    mx = json.load(open("/verif/seeded/MATRIX.json"))
+except Exception:
+    pass
+for sd in sorted(x for x in glob.glob("/verif/seeded/benign/C*-*") if os.path.isdir(x)):
+    name = os.path.basename(sd)
+    meta = json.load(open(os.path.join(sd, "meta.json")))
+    r = mx.get("benign/" + name, {})
+    fired = r.get("fired", {})
+    if "error" in r:
+        verdict = "patch no longer applies"
+    elif not fired:
+        verdict = "silent"
+    else:
+        verdict = "; ".join(f"{p}: " + ("**VIOLATION** " + ",".join(v.get("rules", [])) if v.get("exit") == 1 else "not decided (exit 2)") for p, v in sorted(fired.items()))
+    title = re.sub(r"\s+", " ", meta.get("title", "")).replace("|", "/")
+    if len(title) > 150:
+        title = title[:147] + "…"
+    brow.append(f"| {name} | {title} | {verdict} |")
+btable = "\n".join(["| behaviour-preserving change | what it does | checks on it |", "|---|---|---|"] + brow)
+s3 = re.sub(r"(<!-- BENIGN-TABLE-BEGIN -->\n).*?(<!-- BENIGN-TABLE-END -->)", lambda m: m.group(1) + btable + "\n" + m.group(2), s2, flags=re.S)
+open(p, "w").write(s3)
+print(len(rows), "rows", len(brow), "benign rows", "updated" if s3 != s else "unchanged")
